@@ -208,7 +208,21 @@ Section PeriodicRows.
       by (apply (Forall3_of_nth _ 0 0 0); auto).
     clear -F. induction F; simpl; [reflexivity|]. rewrite wrap_idem, IHF; auto.
   Qed.
+
+  Lemma periodic_forward_spec :
+    length (periodic_forward_y x lower upper) = length x
+    /\ forall i, (i < length x)%nat ->
+         nth i lower 0 <= nth i (periodic_forward_y x lower upper) 0 < nth i upper 0
+         /\ exists k : Z, nth i (periodic_forward_y x lower upper) 0
+                          = nth i x 0 + IZR k * (nth i upper 0 - nth i lower 0).
+  Proof.
+    split; [apply periodic_forward_length|]. intros i Hi. split.
+    - now apply periodic_forward_range. - now apply periodic_forward_shift.
+  Qed.
 End PeriodicRows.
+
+Lemma periodic_logj_zero x l u : periodic_forward_logj x l u = 0 /\ periodic_inverse_logj x l u = 0.
+Proof. split; reflexivity. Qed.
 
 (* ====================================================================================================== *)
 (* 4. AFFINE                                                                                              *)
@@ -307,6 +321,13 @@ Section AffineRows.
       clear -F. induction F; [reflexivity|].
       cbn [map vmap3]. rewrite !vsum_cons. lra.
   Qed.
+
+  Lemma affine_forward_logj_spec x : length x = length std ->
+    affine_forward_logj x mean std = - vsum (map (fun s => ln (Rabs s)) std)
+    /\ (forall i, (i < length x)%nat ->
+         is_derive (fun t => affine_fwd t (nth i mean 0) (nth i std 0)) (nth i x 0) (/ nth i std 0))
+    /\ affine_forward_logj x mean std = vsum (vmap3 (fun _ _ s => ln (Rabs (/ s))) x mean std).
+  Proof. intros Hx. split; [apply affine_forward_logj_std|]. now apply affine_forward_logj_derive. Qed.
 
   Lemma affine_inverse_logj_neg x :
     affine_inverse_logj (affine_forward_y x mean std) mean std = - affine_forward_logj x mean std.
